@@ -621,7 +621,6 @@ func (s *S) nilable() bool {
 }
 
 // inexpressible returns "" if the shape can be expressed, otherwise the first reason found.
-// Reasons starting with "defect:" are shapes the encoder accepts although the decoder cannot read them back.
 func (s *S) inexpressible() string {
 	switch s.K {
 	case "bool", "str", "bytes", "u256", "time":
@@ -639,16 +638,9 @@ func (s *S) inexpressible() string {
 
 		return "width"
 	case "barr":
-		if s.P {
-			return "defect:ptr-to-untyped-byte-array"
-		}
-
 		return ""
 	case "tb":
-		if !s.P {
-			return "defect:typed-bytes-by-value"
-		}
-		if s.N < 0 {
+		if s.P && s.N < 0 {
 			return "ptr-to-typed-slice"
 		}
 		if s.Key == "type" {
@@ -697,12 +689,8 @@ func (s *S) inexpressible() string {
 			seen[a.Code] = true
 			t := a.T
 			ok := (t.K == "struct" && t.Code == a.Code) || (t.K == "ptr" && t.E.K == "struct" && t.E.Code == a.Code) ||
-				(t.K == "tb" && t.P && t.N >= 0 && t.Code == a.Code)
+				(t.K == "tb" && t.Code == a.Code)
 			if !ok {
-				if t.K == "tb" && !t.P {
-					return "defect:typed-bytes-by-value"
-				}
-
 				return "alt-shape"
 			}
 			if r := t.inexpressible(); r != "" {
@@ -722,6 +710,9 @@ func fieldsInexpressible(fs []*F) string {
 		case "fld":
 			if f.Opt && !f.T.nilable() {
 				return "optional-not-nilable"
+			}
+			if f.T.K == "tb" && !f.T.P && f.Key == "type" {
+				return "typed-bytes-key-is-type"
 			}
 			if r := f.T.inexpressible(); r != "" {
 				return r
